@@ -229,3 +229,7 @@ def run(facts, rep, tier):
     rule_r4(facts, rep)
     rep.rule("C19-R5", "Every directory below the library is entered: the loader's recursion is decided by is_dir() alone, never by a file-extension test.")
     rule_r5(facts, rep)
+    rep.rule("C19-R6", "= C14-R9: every file of the library has its own entry - two keys are the same only if their text is the same (derived ==, Hash, order on Key); otherwise one file's "
+             "text is written over another's.")
+    from . import c16 as _c16
+    _c16.rule_r8(facts, rep, "C19-R6", only=("Key",), floor=4)
